@@ -35,6 +35,7 @@ pub enum COp {
     BuilderNew,
     BuilderAdd(Item),
     BuilderMeta,
+    BlockMeta,
     Build,
     Sizes,
     Serialize,
@@ -191,6 +192,7 @@ pub fn enabled(s: &St) -> Vec<COp> {
         v.push(COp::BlockNew);
     }
     if s.blk.is_some() && s.h_blk.len() < 3 {
+        v.push(COp::BlockMeta);
         for i in [Item::FactOk, Item::FactBad, Item::RuleOk, Item::CheckFailing, Item::NonUtf8] {
             v.push(COp::BlockAdd(i));
         }
@@ -226,6 +228,7 @@ fn track(s: &mut St, op: COp) {
         COp::BuilderNew => s.h_bb = vec!["new".into()],
         COp::BuilderAdd(i) => s.h_bb.push(format!("{i:?}")),
         COp::BuilderMeta => s.h_bb.push("meta".into()),
+        COp::BlockMeta => s.h_blk.push("meta".into()),
         COp::Build => {
             s.h_tok = format!("build({})", s.h_bb.join(","));
             s.h_bb.clear();
@@ -286,6 +289,29 @@ pub fn step(s: &mut St, op: COp) -> Result<(), String> {
                 s.rkp = Some(rust_key(p, SEED));
                 if s.kp.is_none() {
                     return Err("key_pair_new returned null for a 32-byte seed".into());
+                }
+                // arbitrary 32-byte strings: accepted exactly when the Rust loaders accept them, never an abort
+                for fill in [0x00u8, 0x01, 0x7f, 0xff] {
+                    for (alg_c, alg_r) in [(c::SignatureAlgorithm::Ed25519, Algorithm::Ed25519), (c::SignatureAlgorithm::Secp256r1, Algorithm::Secp256r1)] {
+                        let mut buf = [fill; 32];
+                        let alg_c2 = match alg_r {
+                            Algorithm::Ed25519 => c::SignatureAlgorithm::Ed25519,
+                            Algorithm::Secp256r1 => c::SignatureAlgorithm::Secp256r1,
+                        };
+                        let k = c::key_pair_deserialize(buf.as_mut_ptr(), alg_c);
+                        let rk = biscuit_auth::PrivateKey::from_bytes(&buf, alg_r);
+                        if k.is_some() != rk.is_ok() {
+                            return Err(format!("key_pair_deserialize({fill:#x} x 32, {alg_r:?}) returned {} but PrivateKey::from_bytes gives {:?}", k.is_some(), rk.as_ref().map(|_| ())));
+                        }
+                        if k.is_none() && kind() == KIND_NONE {
+                            return Err("key_pair_deserialize failed without recording an error".into());
+                        }
+                        let pkc = c::public_key_deserialize(buf.as_mut_ptr(), alg_c2);
+                        let rpk = biscuit_auth::PublicKey::from_bytes(&buf, alg_r);
+                        if pkc.is_some() != rpk.is_ok() {
+                            return Err(format!("public_key_deserialize({fill:#x} x 32, {alg_r:?}) returned {} but PublicKey::from_bytes gives {:?}", pkc.is_some(), rpk.as_ref().map(|_| ())));
+                        }
+                    }
                 }
                 // wrong seed length is refused through the error channel
                 let bad = c::key_pair_new(SEED.as_ptr(), 31, c::SignatureAlgorithm::Ed25519);
@@ -407,6 +433,18 @@ pub fn step(s: &mut St, op: COp) -> Result<(), String> {
                         }
                     }
                 }
+            }
+            COp::BlockMeta => {
+                let ctx = cstr(b"block ctx");
+                if !c::block_builder_set_context(s.blk.as_deref_mut(), ctx.as_ptr()) {
+                    return Err("block_builder_set_context returned false".into());
+                }
+                let bad = CString::new(vec![0xffu8, 0xfe]).unwrap();
+                if c::block_builder_set_context(s.blk.as_deref_mut(), bad.as_ptr()) || kind() != KIND_INVALID_ARGUMENT {
+                    return Err(format!("block_builder_set_context with a non-UTF-8 string: error_kind {}", kind()));
+                }
+                let bq = s.rblk.take().unwrap();
+                s.rblk = Some(bq.context("block ctx".to_string()));
             }
             COp::BuilderMeta => {
                 let ctx = cstr(b"ctx");
@@ -680,7 +718,7 @@ pub fn step(s: &mut St, op: COp) -> Result<(), String> {
 pub fn all_ops() -> Vec<COp> {
     use COp::*;
     use Item::*;
-    let mut v = vec![KeyNew(false), KeyNew(true), KeyPublic, KeyRoundTrip, PubRoundTrip, BuilderNew, BuilderMeta, Build, Sizes, Serialize, SerializeSealed, FromOwn, FromTruncated, FromOtherRoot, Inspect, BlockNew, Append, AbNew, AbBuild, AbBuildUnauth, TokAuthorizer, Authorize, Nulls];
+    let mut v = vec![KeyNew(false), KeyNew(true), KeyPublic, KeyRoundTrip, PubRoundTrip, BuilderNew, BuilderMeta, BlockMeta, Build, Sizes, Serialize, SerializeSealed, FromOwn, FromTruncated, FromOtherRoot, Inspect, BlockNew, Append, AbNew, AbBuild, AbBuildUnauth, TokAuthorizer, Authorize, Nulls];
     for i in [FactOk, FactBad, RuleOk, CheckOk, CheckFailing, NonUtf8, PolicyAllow, PolicyBad] {
         v.push(BuilderAdd(i));
         v.push(BlockAdd(i));
